@@ -17,7 +17,155 @@ fn pool() -> Vec<(&'static str, bool)> {
         .collect()
 }
 
+// ---- corpus sweep: a frozen slice of real rules, loaded as ONE list -----------------------------
+
+const CORPUS: &str = include_str!("../../corpus/real-rules.txt");
+
+fn corpus_rules() -> Vec<&'static str> {
+    CORPUS.lines().map(|l| l.trim()).filter(|l| !l.is_empty()).collect()
+}
+
+/// URLs derived from one rule's pattern by a fixed procedure (`*` -> "x1", `^` -> "/"), in the
+/// contexts that matter to the token index: the pattern's first / last token as a whole URL token,
+/// as the tail of a longer token, as the head of a longer token, inside a query string; for `||`
+/// rules the host itself, a sub-domain, and a host that merely ends with the same text.
+fn derive_urls(rule: &str, full: bool) -> Vec<String> {
+    let r = rule.strip_prefix("@@").unwrap_or(rule);
+    let body = match r.rfind('$') {
+        Some(i) if i > 0 && !r[i + 1..].contains('/') => &r[..i],
+        _ => r,
+    };
+    if body.len() > 1 && body.starts_with('/') && body.ends_with('/') {
+        return vec![]; // full regex: not instantiated (the rule still takes part in the list)
+    }
+    let inst = |s: &str| s.replace('*', "x1").replace('^', "/").replace(' ', "");
+    let mut out = vec![];
+    if let Some(rest) = body.strip_prefix("||") {
+        let rest = rest.strip_suffix('|').unwrap_or(rest);
+        let cut = rest.find(|c| c == '/' || c == '^' || c == '*').unwrap_or(rest.len());
+        let (host, tail) = (&rest[..cut], inst(&rest[cut..]));
+        if host.is_empty() || !host.is_ascii() {
+            return out;
+        }
+        let tail = if tail.starts_with('/') || tail.is_empty() { tail } else { format!("/{}", tail) };
+        out.push(format!("https://{}{}", host, tail));
+        out.push(format!("https://sub.{}{}", host, tail));
+        out.push(format!("https://x{}{}", host, tail));
+        out.push(format!("http://{}{}?a=1", host, if tail.is_empty() { "/".to_string() } else { tail.clone() }));
+        if full {
+            out.push(format!("https://{}.evil.test{}", host, tail));
+            out.push(format!("wss://{}{}", host, tail));
+            out.push(format!("https://{}{}x", host, tail));
+        }
+    } else if let Some(rest) = body.strip_prefix('|') {
+        let rest = rest.strip_suffix('|').unwrap_or(rest);
+        let u = inst(rest);
+        if u.starts_with("http") || u.starts_with("ws") {
+            out.push(u.clone());
+            out.push(format!("{}x", u));
+            if full {
+                out.push(format!("{}/y?z=1", u));
+            }
+        }
+    } else {
+        let rest = body.strip_suffix('|').unwrap_or(body);
+        let b = inst(rest);
+        if b.is_empty() || !b.is_ascii() {
+            return out;
+        }
+        let lead = if b.starts_with('/') || b.starts_with('.') || b.starts_with('?') || b.starts_with('&') || b.starts_with('-') || b.starts_with('_') { "" } else { "/" };
+        out.push(format!("https://site.test{}{}", lead, b));
+        out.push(format!("https://site.test/lo{}", b.trim_start_matches('/')));
+        out.push(format!("https://site.test{}{}x", lead, b));
+        out.push(format!("https://site.test/p?q={}", b));
+        if full {
+            out.push(format!("http://a.site.test{}{}/z", lead, b));
+            out.push(format!("https://site.test{}{}", lead, b.to_ascii_uppercase()));
+        }
+    }
+    out.retain(|u| u.len() < 300);
+    out
+}
+
+fn first_domain_option(rule: &str) -> Option<String> {
+    let opts = rule.rsplit_once('$')?.1;
+    for o in opts.split(',') {
+        if let Some(v) = o.strip_prefix("domain=").or_else(|| o.strip_prefix("from=")) {
+            return v.split('|').find(|d| !d.starts_with('~') && !d.is_empty()).map(|d| format!("https://{}/", d));
+        }
+    }
+    None
+}
+
+struct CorpusSubject {
+    engine: adblock::Engine,
+    rules: Vec<vh::oracle::netspec::Rule>,
+}
+
+thread_local! {
+    static CORPUS_SUBJECT: std::cell::RefCell<Option<CorpusSubject>> = const { std::cell::RefCell::new(None) };
+}
+
+fn corpus_check(rule_idx: usize, full: bool, l: &mut Local) {
+    use vh::oracle::netspec as ns;
+    let all = corpus_rules();
+    CORPUS_SUBJECT.with(|cell| {
+        let mut b = cell.borrow_mut();
+        if b.is_none() {
+            let engine = vh::netsweep::build_engine(&all, &[], false, true);
+            let rules = ns::parse_rules(&all, &[]);
+            l.states += 1;
+            l.count("corpus_rules_parsed", rules.len() as u64);
+            *b = Some(CorpusSubject { engine, rules });
+        }
+        let subj = b.as_ref().unwrap();
+        let tags = std::collections::HashSet::new();
+        let active = ns::active_rules_by_text(&subj.rules, &tags);
+        let store = ns::std_res_spec();
+        let rule = all[rule_idx];
+        let mut sources = vec!["https://site.test/".to_string(), "https://other.example/".to_string(), String::new()];
+        if let Some(d) = first_domain_option(rule) {
+            sources.push(d);
+        }
+        let types: &[&'static str] = if full { &["script", "image", "subdocument", "xmlhttprequest", "document", "websocket", "other"] } else { &["script", "image", "subdocument"] };
+        for url in derive_urls(rule, full) {
+            for src in &sources {
+                for ty in types {
+                    let req = match adblock::request::Request::new(&url, src, ty) {
+                        Ok(r) => r,
+                        Err(_) => continue,
+                    };
+                    l.evaluations += 1;
+                    l.transitions += 1;
+                    let (d, spec, got) = ns::compare_engine_active(&subj.engine, &active, &req, &url, &store);
+                    l.compared += 1;
+                    if spec.verdict.hits > 0 {
+                        l.nontrivial += 1;
+                    }
+                    if let Some((g, csp)) = &got {
+                        l.hist(&format!("corpus:{}{}", g.short(), if csp.is_some() { "C" } else { "-" }));
+                    }
+                    if let Some(field) = d {
+                        // minimal responsible sub-list: the matching rules
+                        let rq = alpha::Req { req, url: url.clone(), source: src.clone(), ty };
+                        l.mismatch(vh::Mismatch {
+                            sig: vh::netsweep::classify("c01.corpus", &field, &spec, &subj.rules, &rq),
+                            what: format!("corpus list ({} rules), request ({}, {}, {}) derived from rule {:?}: matching rules {:?}; reference {:?}; engine {:?}", all.len(), url, src, ty, rule, spec.matching, spec.verdict, got),
+                            case: serde_json::json!({"kind": "corpus", "rule_idx": rule_idx, "url": url, "source": src, "type": ty, "matching": spec.matching}),
+                            size: (1_000_000 + url.len()) as u64,
+                        });
+                    }
+                }
+            }
+        }
+    });
+}
+
 fn replay(case: &Value, l: &mut Local) {
+    if case["kind"].as_str() == Some("corpus") {
+        corpus_check(case["rule_idx"].as_u64().unwrap_or(0) as usize, true, l);
+        return;
+    }
     vh::netsweep::replay_case("c01", case, l, true);
 }
 
@@ -39,6 +187,17 @@ fn check(ctx: &Ctx) -> i32 {
         let sample = l.samples.len() < 2 && (i + ctx.seed) % 577 == 3;
         vh::netsweep::check_list("c01", &items, &reqs, l, sample, true);
     });
+    // corpus sweep: 3 613 real rules (frozen copy under harness/corpus) loaded as one list, against
+    // URLs derived from every rule
+    let nrules = corpus_rules().len() as u64;
+    ctx.bound("corpus_rules", nrules);
+    let full = ctx.tier == vh::Tier::Thorough;
+    ctx.par_range("corpus: URLs derived from each rule", nrules, 8, |i, l| {
+        if l.samples.len() < 3 && (i + ctx.seed) % 1201 == 0 {
+            l.samples.push(serde_json::json!({"corpus_rule": corpus_rules()[i as usize], "derived_urls": derive_urls(corpus_rules()[i as usize], full)}));
+        }
+        corpus_check(i as usize, full, l);
+    });
     if ctx.tier == vh::Tier::Thorough {
         // lists of <= 2 rules against the full request cross (all URLs x all initiators x all type aliases)
         let full = alpha::requests(true, true);
@@ -53,7 +212,7 @@ fn check(ctx: &Ctx) -> i32 {
     }
     ctx.finish(
         "model_checking",
-        "all ordered lists without repetition of <= k rules of the 50-entry pool (R_net + 2 hosts lines), each built into a real engine (no optimisation), under every subset of the tags the list mentions, against every request of U_net x (initiator,type); non-trivial = at least one rule of the list matches the request per the public matcher; states = engines built, transitions = requests checked, each compared field by field (matched, important, exception, redirect, rewritten URL, CSP set) with the reference combiner",
+        "all ordered lists without repetition of <= k rules of the 50-entry pool (R_net + 2 hosts lines), each built into a real engine (no optimisation), under every subset of the tags the list mentions, against every request of U_net x (initiator,type); plus a corpus sweep (3 613 real rules from EasyList / uBO / Brave lists, frozen under harness/corpus, loaded as one list, against URLs derived from every rule by a fixed procedure x initiators x types); non-trivial = at least one rule of the list matches the request per the public matcher; states = engines built, transitions = requests checked, each compared field by field (matched, important, exception, redirect, rewritten URL, CSP set) with the reference combiner",
         &[
             "per-rule match = the public NetworkFilter::matches on the parsed rule (differential); precedence, badfilter, tags, redirect choice, removeparam and CSP come from the independent reference",
             "no 64-bit seahash collision among the strings of the alphabets (checked at start-up)",
